@@ -58,10 +58,20 @@ def generate(rng, tier, index):
 
 
 # ----------------------------------------------------------------------------------------------
-def run_driver(rebound, sim, drv, path, start_k):
-    """(Re-)enter the snapshot driver at snapshot index start_k."""
+def run_driver(rebound, sim, drv, path, start_k, keep_dld=False):
+    """(Re-)enter the snapshot driver at snapshot index start_k.
+    keep_dld: counterfactual used only to classify a mismatch - integrate() with the persisted dt_last_done put back after integrate() zeroed it."""
     mode, nsnap, chunk = drv["mode"], drv["nsnap"], drv["chunk"]
     sgn = 1.0 if sim.dt > 0 else -1.0
+    if keep_dld:
+        from .. import rb as _rb
+        _orig = sim.integrate
+
+        def _integ(t, exact_finish_time=1):
+            _rb.integrate_keeping_dt_last_done(sim, t, exact_finish_time)
+        integrate = _integ
+    else:
+        integrate = sim.integrate
     if mode == "manual_steps":
         for k in range(start_k, nsnap):
             if k > 0:
@@ -70,15 +80,15 @@ def run_driver(rebound, sim, drv, path, start_k):
     elif mode == "manual_integrate":
         for k in range(start_k, nsnap):
             if k > 0:
-                sim.integrate(sgn * k * drv["Dt"])
+                integrate(sgn * k * drv["Dt"])
             sim.save_to_file(path)
     elif mode == "auto_step":
         sim.save_to_file(path, step=chunk)
         # integrate long enough for nsnap snapshots; stop from the step counter, not from time
-        sim.integrate(drv["T"])
+        integrate(drv["T"])
     elif mode == "auto_interval":
         sim.save_to_file(path, interval=drv["Dt"])
-        sim.integrate(sgn * (nsnap - 1 + 0.5) * drv["Dt"])
+        integrate(sgn * (nsnap - 1 + 0.5) * drv["Dt"])
 
 
 def _tmax_steps(sim, drv):
@@ -329,8 +339,28 @@ def execute(case, ctx):
             d = rb.S_diff(load_S(rebound, rb, cfg, sa2, k, drop=WALLTIME_FIELDS), MSnw[k])
             if d:
                 key = "restart:snapshot-differs"
+                if cfg["integrator"] in ("ias15", "mercurius", "trace") and drv["mode"] != "manual_steps":
+                    # known mechanism? integrate() zeroes dt_last_done on entry (IAS15 then skips its predictor after a rejected first step).
+                    # Counterfactual: the same restart with the persisted value put back must reproduce the uninterrupted archive.
+                    cpath = rpath + ".cf"
+                    open(cpath, "wb").write(img)
+                    try:
+                        with rb.quiet():
+                            s3 = rebound.Simulation(cpath)
+                            simgen.attach_callbacks(rebound, rb, s3, cfg)
+                            run_driver(rebound, s3, drv, cpath, n, keep_dld=True)
+                            sa3 = rebound.Simulationarchive(cpath)
+                            if sa3.nblobs == nref and all(not rb.S_diff(load_S(rebound, rb, cfg, sa3, kk, drop=WALLTIME_FIELDS + (3,)), {a: b for a, b in MSnw[kk].items() if a != 3}) for kk in range(nref)):
+                                key = "restart:dt_last_done-zeroed-on-integrate-entry"
+                            del sa3
+                    except (RuntimeError, rebound.Escape, rebound.NoParticles, rebound.Encounter, rebound.Collision):
+                        pass
+                    finally:
+                        if os.path.exists(cpath):
+                            os.unlink(cpath)
                 st_from = struct.unpack("<i", MS[n - 1][11])[0]
-                if set(d) == {3} and st_from == -2 and drv["mode"].startswith("auto"):
+                if key == "restart:snapshot-differs" and set(d) <= {0, 3, 11, 137, 145} and st_from == -2 and drv["mode"].startswith("auto"):
+                    # (dt alone, or - when t+dt rounds to just below tmax on re-entry - one extra step of ~1e-17 with its bookkeeping: t, status, steps_done, dt_last_done)
                     # the snapshot restarted from was taken inside the artificially shortened last step
                     key = "restart:dt-only:restart-snapshot-taken-in-LAST_STEP"
                 viol("restart", "snapshot of restarted archive differs from uninterrupted run",
